@@ -4,3 +4,4 @@ import LA.Props.C02
 import LA.Props.C03
 import LA.Props.C10
 import LA.Props.C19
+import LA.Props.C09
